@@ -137,6 +137,12 @@ def run(tier, seed):
     res = common.Result('fault_enumeration')
     m0, W = workloads(tier)
     tasks = [(m0, s, {'backup': b, 'quiet': True}, drv, tier != 'quick' or i % 4 == 0) for i, s in enumerate(W) for b in ('always', 'never') for drv in DRIVERS]
+    # a file with a line longer than any write buffer: such a line goes out in a write of its own, which may be cut short
+    mbig = m0.clone()
+    mbig.t['big'] = ([b'b0', b'L' * 20000, b'b2', b'b3', b'b4', b'b5'], 0o644)
+    fresh = tq.Fresh()
+    big = [[tq.Patch([tq.t_mod(mbig, fresh, 'big', 1, 0, 3)])], [tq.Patch([tq.t_mod(mbig, fresh, 'big', 1, 0, 4), tq.t_mod(mbig, fresh, 'f')])]]
+    tasks += [(mbig, s, {'backup': b, 'quiet': True}, drv, True) for s in big for b in ('always', 'never') for drv in DRIVERS]
     acc = wsweep.Acc(res)
     calls = 0
     for i, r in enumerate(wsweep.pmap(case, tasks)):
